@@ -19,6 +19,9 @@ type orderField struct {
 	expr, name, typ string
 }
 
+// orderNeeds: another select field a field (by name) refers to; appended at the END of the list, so column numbers stay
+var orderNeeds = map[string]string{"kx": "key as kq", "vv": "value as vq", "n2": "strlen(value) as nq"}
+
 var orderFields = []orderField{
 	{"key", "KEY", "str"},
 	{"value", "VALUE", "str"},
@@ -30,6 +33,10 @@ var orderFields = []orderField{
 	{"is_int(value)", "isi", "bool"},
 	{"key ^= 'a'", "ka", "bool"},
 	{"value + key", "vk", "str"},
+	// fields defined through ANOTHER field's name: their type is only known once that name is resolved
+	{"kq + '-x'", "kx", "str"},
+	{"vq + vq", "vv", "str"},
+	{"nq * 2 + 1", "n2", "num"},
 }
 
 func orderStore(r *Rand, size int) []KV {
@@ -152,6 +159,11 @@ func runORDER(e *Env) (*Summary, error) {
 						sel = append(sel, f.expr)
 					} else {
 						sel = append(sel, f.expr+" as "+f.name)
+					}
+				}
+				for _, f := range fs {
+					if nd := orderNeeds[f.name]; nd != "" {
+						sel = append(sel, nd)
 					}
 				}
 				where := pick(r, []string{"key >= ''", "key ^= 'a' | key ^= 'b' | key ^= 'k'", "is_int(value)", "value != 'x'", "key in ('a', 'b', 'k1', 'k2', 'zz')"})
